@@ -160,7 +160,9 @@ class Exec:
 
     # ---- spec evaluation ----------------------------------------------------------------
     def spec(self, env, st, old=None, old_env=None, pkg=None):
-        return SpecEval(self.vc, pkg or self.pkg, env, st, old, old_env)
+        ev = SpecEval(self.vc, pkg or self.pkg, env, st, old, old_env)
+        ev.hdr = getattr(self.top, 'headers', {})
+        return ev
 
     def param_env(self):
         env = {}
@@ -168,6 +170,8 @@ class Exec:
             env[p['n']] = self.vals[p['n']]
         if self.contract is not None and self.contract.recv_name and self.f.params:
             env[self.contract.recv_name] = self.vals[self.f.params[0]['n']]
+        if self.contract is not None and getattr(self.contract, 'alias_recv', None) and self.f.params:
+            env.setdefault(self.contract.alias_recv, self.vals[self.f.params[0]['n']])
         if self.contract is not None and self.contract.param_names:
             # interface contract checked on an implementation: the interface's parameter names alias ours
             for nme, p in zip(self.contract.param_names, self.f.params[1:]):
@@ -364,6 +368,9 @@ class Exec:
             m0 = [ev.eval(x) for x in lc.decreases.expr]
             m0 = [V(vc.define(self.nm('measure$h%d' % h), 'Int', m.term), 'Int') for m in m0]
         self.loopinfo[h] = {'loop': loop, 'lc': lc, 'phis': phis, 'env0': env0, 'm0': m0, 'n': 0}
+        self.top.headers = getattr(self.top, 'headers', {})
+        if self.top is self:
+            self.headers[loop['ordinal']] = (dict(envH), st.copy())
         return r, st
 
     def close_backedge(self, src, h, cond, st):
@@ -629,7 +636,18 @@ class Exec:
             if not path:
                 raise ContractError('assigns: no field %s in %s' % (e[2], bts))
             return path[-1][2]
-        raise ContractError('assigns: unsupported target expression %r' % (e,))
+        # general expression (e.g. a spec function applied to a parameter): evaluate for its type only
+        env = {}
+        for pn, pt in zip(self.callee_param_names(cf, cc, None), self.callee_param_types(cf, cc)):
+            env[pn] = V('dummy', self.vc.sort_of(pt), pt)
+        ev = SpecEval(self.vc, cc.pkg, env, State(self.vc, {}, '0', 0), None)
+        try:
+            v = ev.eval(e)
+        except SpecError as ex_:
+            raise ContractError('assigns: cannot type target expression %r: %s' % (e, ex_))
+        if not v.ts:
+            raise ContractError('assigns: untyped target expression %r' % (e,))
+        return v.ts
 
     def callee_param_names(self, cf, cc, call):
         if cf is not None:
@@ -1065,6 +1083,10 @@ class Exec:
                     t = eq('(s.arr %s)' % x.term, '0')
                 elif x.term == '(mkslice 0 0 0 0)':
                     t = eq('(s.arr %s)' % y.term, '0')
+            elif s == 'Str' and (x.term == vc.strlits.get('') or y.term == vc.strlits.get('')):
+                # comparison with the empty string: a string is empty iff it has no runes
+                other = y.term if x.term == vc.strlits.get('') else x.term
+                t = '(= (gs.rlen %s) 0)' % other
             else:
                 t = eq(x.term, y.term)
             self.setv(ins, V(t if op == '==' else not_(t), 'Bool', ts))
@@ -1176,7 +1198,10 @@ class Exec:
                     key = (ats, it)
                     if key not in vc.tid_facts:
                         vc.tid_facts.add(key)
-                        vc.assume('(%s %d)' % (f, vc.tid(it)))
+                        try:
+                            vc.assume('(%s %d)' % (f, vc.tid(it)))
+                        except Unsupported:
+                            pass    # struct values are never boxed in this code base (states are used through pointers)
                 ok = and_(not_(eq(x.term, 'a.nil')), '(%s (a.tid %s))' % (f, x.term))
             val = V(x.term, 'Any', ats)
         else:
@@ -1267,6 +1292,7 @@ class Exec:
             vc.external_models.add(callee)
             return models.MODELS[callee]['fn'](self, ins)
         actuals = [self.op(a) for a in self.call_actuals(call)]
+        self.callsite_obligations(ins, callee, actuals)
         if call['invoke']:
             recv = actuals[0]
             self.oblige('nil', 'method call on nil interface', self.reach, not_(eq(recv.term, 'a.nil')), ['C03'], line)
@@ -1288,6 +1314,25 @@ class Exec:
         vc.assume('(>= %s %s)' % (a, self.st.alloc), self.reach)
         self.st.alloc = a
         self.set_results(ins, self.fresh_results(ins))
+
+    def callsite_obligations(self, ins, callee, actuals):
+        c = self.contract
+        if self.top is not self or c is None or not c.callsites or not callee:
+            return
+        cf = self.prog.funcs.get(callee)
+        short = cf.short if cf is not None else callee.rsplit('.', 1)[-1]
+        for (nm, cl) in c.callsites:
+            if nm != short:
+                continue
+            env = self.param_env()
+            env.update(self.named)
+            if cf is not None:
+                for p, a in zip(cf.params, actuals):
+                    if isinstance(a, V):
+                        env[p['n']] = V(a.term, a.sort, p['t'])
+            ev = self.spec(env, self.st, self.entry_state, self.entry_env)
+            g = self.eval_clause(ev, cl, 'callsite requires', 'goal')
+            self.oblige('callsite', '%s: %s' % (nm, cl.text), self.reach, g.term, cl.tags, ins.get('line', 0), skolems=ev.skolems)
 
     def fresh_results(self, ins, rtypes=None):
         vc = self.vc
@@ -1622,6 +1667,7 @@ def verify_function(vc, func, contract):
         for i, cl in enumerate(contract.ensures):
             ev = SpecEval(vc, pkg, renv, rst, st, env)
             ev.entry_alloc = a0
+            ev.hdr = getattr(ex, 'headers', {})
             g = ex.eval_clause(ev, cl, 'ensures', 'goal')
             o = vc.oblige('post', 'ret%d.%d' % (k, i), cl.text, cond, g.term, cl.tags + [t for t in contract.tags if t not in cl.tags], line)
             o.skolems = list(ev.skolems)
